@@ -36,6 +36,15 @@ import (
 	"verif/sim/wire"
 )
 
+// cur records the case about to run, so that a crash of the process can be
+// attributed to it by the driver.
+func cur[C any](r *hx.Run, sub string, prop func(C) hx.Verdict) func(C) hx.Verdict {
+	return func(c C) hx.Verdict {
+		r.SetCurrent(sub, c)
+		return prop(c)
+	}
+}
+
 // ---------------------------------------------------------------- recorder / plugin
 
 type ev struct {
@@ -431,7 +440,7 @@ func genC13(rt *rapid.T) c13Case {
 func TestTCPC13(t *testing.T) {
 	r := hx.Start(t, "C13")
 	defer r.Finish(t)
-	hx.Rapid(r, t, "tcp_real_address_forms", r.N(60, 400), genC13, c13Prop)
+	hx.Rapid(r, t, "tcp_real_address_forms", r.N(60, 400), genC13, cur(r, "tcp_real_address_forms", c13Prop))
 }
 
 // ---------------------------------------------------------------- C11: the real dialer path
@@ -573,7 +582,7 @@ func TestTCPC11(t *testing.T) {
 	hx.Rapid(r, t, "tcp_real_dialer", r.N(6, 60), func(rt *rapid.T) c11Case {
 		return c11Case{Local: []string{"", "h5", "h6"}[rapid.IntRange(0, 2).Draw(rt, "local")], IdleMs: []int{60, 100, 150}[rapid.IntRange(0, 2).Draw(rt, "idle")],
 			Refusals: rapid.IntRange(3, 6).Draw(rt, "refusals"), Remote: []string{"h2", "h3"}[rapid.IntRange(0, 1).Draw(rt, "remote")]}
-	}, c11Prop)
+	}, cur(r, "tcp_real_dialer", c11Prop))
 }
 
 // ---------------------------------------------------------------- C06: hold timer with the repository's own timer-channel semantics
@@ -749,7 +758,7 @@ func TestTCPC06(t *testing.T) {
 			c.Scns = append(c.Scns, sc)
 		}
 		return c
-	}, c06Prop)
+	}, cur(r, "tcp_handler_crosses_deadline", c06Prop))
 }
 
 // ---------------------------------------------------------------- C03: delivery over real TCP with tiny writes
@@ -853,7 +862,7 @@ func TestTCPC03(t *testing.T) {
 			c.Lens = append(c.Lens, []int{-1, 0, 1, 4, 19, 255, 256, 900}[rapid.IntRange(0, 7).Draw(rt, "len")])
 		}
 		return c
-	}, c03Prop)
+	}, cur(r, "tcp_tiny_writes", c03Prop))
 }
 
 // ---------------------------------------------------------------- C05 / C10: hostile streams and churn, also under -race
@@ -1027,11 +1036,11 @@ func genChurn(rt *rapid.T) churnCase {
 func TestTCPC10(t *testing.T) {
 	r := hx.Start(t, "C10")
 	defer r.Finish(t)
-	hx.Rapid(r, t, "tcp_churn", r.N(40, 500), genChurn, churnProp)
+	hx.Rapid(r, t, "tcp_churn", r.N(40, 500), genChurn, cur(r, "tcp_churn", churnProp))
 }
 
 func TestTCPC05(t *testing.T) {
 	r := hx.Start(t, "C05")
 	defer r.Finish(t)
-	hx.Rapid(r, t, "tcp_churn", r.N(40, 500), genChurn, churnProp)
+	hx.Rapid(r, t, "tcp_churn", r.N(40, 500), genChurn, cur(r, "tcp_churn", churnProp))
 }
